@@ -909,3 +909,247 @@ Proof.
   specialize (A (HConnect cid0 a token) (or_introl eq_refl)). simpl in A. injection A as ->.
   exists a, token, ms, tl. subst; auto.
 Qed.
+
+(* ---------- what a step cannot change; the only way to stop serving ---------- *)
+Definition Keeps (s s' : srv) (o : list sout) : Prop :=
+  s_block s' = s_block s /\ s_cfg s' = s_cfg s /\ (s_dead s' = s_dead s \/ In (SDied 1) o).
+
+Lemma Keeps_frame s s' o : frame s s' -> Keeps s s' o.
+Proof. intros (_ & _ & _ & B & G & _ & D). repeat split; auto. Qed.
+Lemma Keeps_trans s s1 s2 o1 o2 : Keeps s s1 o1 -> Keeps s1 s2 o2 -> Keeps s s2 (o1 ++ o2).
+Proof.
+  intros (A & B & C) (D & E & F). repeat split; try congruence.
+  destruct C as [C|C]; [destruct F as [F|F]|]; [left; congruence|right|right]; apply in_app_iff; auto.
+Qed.
+Lemma Keeps_more s s' o o' : Keeps s s' o -> (forall x, In x o -> In x o') -> Keeps s s' o'.
+Proof. intros (A & B & C) S. repeat split; auto. destruct C; auto. Qed.
+
+Lemma on_connect_keeps h e s cid s' o : on_connect h e s cid = (s', o) -> Keeps s s' o.
+Proof.
+  unfold on_connect. destruct (sfind cid s) as [cl|]. 2:{ intros [= <- <-]. apply Keeps_frame, frame_refl. }
+  destruct (pget _ _). 2:{ intros [= <- <-]. apply Keeps_frame, frame_refl. }
+  intros H. apply call_handler_spec in H. destruct H as [(_ & _ & _ & B & G & _ & D) _].
+  repeat split; auto.
+Qed.
+
+Lemma srv_msg_keeps h e s cid now m x s' o r : srv_msg h e s cid now m x = (s', o, r) -> Keeps s s' o.
+Proof.
+  unfold srv_msg. destruct (sfind cid s) as [cl|]. 2:{ intros [= <- <- <-]. apply Keeps_frame, frame_refl. }
+  match goal with |- context [match (if ?b then ?u else ?v) with _ => _ end] =>
+    destruct (if b then u else v) as [[t rand']|] end.
+  2:{ intros [= <- <- <-]. repeat split; simpl; auto. }
+  destruct (recv_msgs _ _ _ _) as [c' outs].
+  match goal with |- context [supd cid ?f ?s0] => set (s1 := supd cid f s0) end.
+  assert (F1 : frame s s1). { eapply frame_trans; [apply frame_rand|apply supd_frame]. }
+  destruct (has_connect outs).
+  - destruct (on_connect h e s1 cid) as [s2 o2] eqn:OC. intros [= <- <- <-].
+    apply on_connect_keeps in OC. eapply Keeps_more.
+    + eapply (Keeps_trans _ _ _ [] o2); [apply Keeps_frame; eauto|eauto].
+    + simpl. intros y I. apply in_app_iff. right. simpl. auto.
+  - intros [= <- <- <-]. apply Keeps_frame; auto.
+Qed.
+
+Lemma srv_msgs_keeps h e cid now ms : forall s xs s' o r,
+  srv_msgs h e s cid now ms xs = (s', o, r) -> Keeps s s' o.
+Proof.
+  induction ms as [|m rest IH]; simpl; intros s xs s' o r.
+  - intros [= <- <- <-]. apply Keeps_frame, frame_refl.
+  - destruct (srv_msg h e s cid now m (hd no_hsx xs)) as [[s1 o1] r1] eqn:M. destruct r1.
+    + intros [= <- <- <-]. eapply srv_msg_keeps; eauto.
+    + destruct (srv_msgs h e s1 cid now rest _) as [[s2 o2] r2] eqn:R. intros [= <- <- <-].
+      eapply Keeps_trans; [eapply srv_msg_keeps; eauto|eapply IH; eauto].
+Qed.
+
+Lemma srv_recv_keeps h e s cid now d xs s' o r : srv_recv h e s cid now d xs = (s', o, r) -> Keeps s s' o.
+Proof.
+  unfold srv_recv. destruct (sfind cid s) as [cl|]. 2:{ intros [= <- <- <-]. apply Keeps_frame, frame_refl. }
+  destruct (keyless_refuses _ _). { intros [= <- <- <-]. apply Keeps_frame, supd_frame. }
+  destruct (open_dgram _ _) as [ms|er]. 2:{ intros [= <- <- <-]. apply Keeps_frame, supd_frame. }
+  destruct (bf_insert _ _) as [bf|er2]. 2:{ intros [= <- <- <-]. apply Keeps_frame, supd_frame. }
+  destruct (handle_ack_bits _ _) as [c1 o1].
+  destruct (srv_msgs _ _ _ _ _ _ _) as [[s2 o2] r2] eqn:M. intros [= <- <- <-].
+  eapply Keeps_more; [eapply (Keeps_trans _ _ _ [] o2); [apply Keeps_frame, supd_frame|eapply srv_msgs_keeps; eauto]|].
+  simpl. intros y I. apply in_app_iff. auto.
+Qed.
+
+Lemma deliver_msgs_frame h e cid q : forall s s' o, deliver_msgs h e s cid q = (s', o) -> frame s s'.
+Proof.
+  induction q as [|[ms p] rest IH]; cbn [deliver_msgs]; intros s s' o.
+  - intros [= <- <-]. apply frame_refl.
+  - destruct (call_handler h e s (HMessage cid ms p)) as [s1 o1] eqn:C.
+    destruct (deliver_msgs h e s1 cid rest) as [s2 o2] eqn:R. intros [= <- <-].
+    apply call_handler_spec in C. eapply frame_trans; [apply C|eapply IH; eauto].
+Qed.
+
+Lemma deliver_frame h e s cid s' o : deliver h e s cid = (s', o) -> frame s s'.
+Proof.
+  unfold deliver. destruct (sfind cid s). 2:{ intros [= <- <-]. apply frame_refl. }
+  destruct (deliver_msgs _ _ _ _ _) as [s1 o1] eqn:D. intros [= <- <-].
+  eapply frame_trans; [eapply deliver_msgs_frame; eauto|apply supd_frame].
+Qed.
+
+Lemma disp_item_keeps h e s now a d xs s' o : disp_item h e s now a d xs = (s', o) -> Keeps s s' o.
+Proof.
+  unfold disp_item. destruct (pget a (s_conns s)) as [cl|].
+  - destruct (srv_recv _ _ _ _ _ _ _) as [[s1 o1] r1] eqn:R. apply srv_recv_keeps in R.
+    destruct (s_dead s1). { intros [= <- <-]. auto. }
+    destruct r1.
+    + intros [= <- <-]. eapply Keeps_more; eauto. intros y I. apply in_app_iff; auto.
+    + destruct (deliver h e s1 (cl_id cl)) as [s2 o2] eqn:D. intros [= <- <-].
+      eapply Keeps_trans; eauto. apply Keeps_frame. eapply deliver_frame; eauto.
+  - destruct (pget a (s_temp s)) as [cl|].
+    + destruct (negb _). { intros [= <- <-]. apply Keeps_frame, frame_refl. }
+      destruct (srv_recv _ _ _ _ _ _ _) as [[s1 o1] r1] eqn:R. apply srv_recv_keeps in R.
+      destruct (s_dead s1); intros [= <- <-]; auto.
+      eapply Keeps_more; eauto. intros y I. apply in_app_iff; auto.
+    + destruct (negb _). { intros [= <- <-]. apply Keeps_frame, frame_refl. }
+      destruct (srv_recv _ _ _ _ _ _ _) as [[s1 o1] r1] eqn:R. apply srv_recv_keeps in R.
+      assert (K : Keeps s s1 o1). { destruct R as (A & B & C). repeat split; auto. }
+      destruct (s_dead s1); intros [= <- <-]; auto.
+      eapply Keeps_more; eauto. intros y I. apply in_app_iff; auto.
+Qed.
+
+Lemma disp_all_keeps h e now q : forall s s' o, disp_all h e s now q = (s', o) -> Keeps s s' o.
+Proof.
+  induction q as [|it rest IH]; simpl; intros s s' o.
+  - intros [= <- <-]. apply Keeps_frame, frame_refl.
+  - destruct (s_dead s). { intros [= <- <-]. apply Keeps_frame, frame_refl. }
+    destruct (match gate (s_block s) it with Some _ => _ | None => _ end) as [s1 o1] eqn:G.
+    destruct (disp_all h e s1 now rest) as [s2 o2] eqn:R. intros [= <- <-].
+    eapply Keeps_trans; [|eapply IH; eauto].
+    destruct (gate (s_block s) it) as [[[a d] xs]|].
+    + eapply disp_item_keeps; eauto.
+    + injection G as <- <-. apply Keeps_frame, frame_refl.
+Qed.
+
+Lemma srv_du_keeps h e s i s' o : srv_du h e s i = (s', o) -> Keeps s s' o.
+Proof.
+  unfold srv_du. destruct (disp_all _ _ _ _ _) as [s1 o1] eqn:D. apply disp_all_keeps in D.
+  assert (K : Keeps s s1 o1). { destruct D as (A & B & C). repeat split; auto. }
+  destruct (s_dead s1). { intros [= <- <-]. auto. }
+  destruct (call_handler h e s1 HUpdate) as [s2 o2] eqn:C. intros [= <- <-].
+  apply call_handler_spec in C. eapply Keeps_trans; eauto. apply Keeps_frame. apply C.
+Qed.
+
+Definition Same (s s' : srv) : Prop := s_block s' = s_block s /\ s_cfg s' = s_cfg s /\ s_dead s' = s_dead s.
+Lemma Same_frame s s' : frame s s' -> Same s s'.
+Proof. intros (_ & _ & _ & B & G & _ & D). repeat split; auto. Qed.
+Lemma Same_trans a b c : Same a b -> Same b c -> Same a c.
+Proof. unfold Same. intuition congruence. Qed.
+Lemma Same_refl s : Same s s.
+Proof. repeat split. Qed.
+
+Lemma sweep_conn_same h e s now cid s' o p : sweep_conn h e s now cid = (s', o, p) -> Same s s'.
+Proof.
+  unfold sweep_conn. destruct (pfind cid (s_conns s)) as [cl0|]. 2:{ intros [= <- <- <-]. apply Same_refl. }
+  match goal with |- context [pfind cid (s_conns ?x)] =>
+    match x with s => fail 1 | _ => set (sa := x) end end.
+  assert (Fa : frame s sa). { unfold sa. destruct (status_eqb _ _); [apply supd_frame|apply frame_refl]. }
+  destruct (pfind cid (s_conns sa)) as [cl|]. 2:{ intros [= <- <- <-]. apply Same_frame; auto. }
+  destruct (_ || _).
+  - destruct (call_handler h e sa (HDisconnect cid)) as [s1 o1] eqn:C.
+    apply call_handler_spec in C. destruct C as [F1 _].
+    destruct (pfind cid (s_conns s1)) as [cl1|].
+    + destruct (tick_client e s1 cl1 now) as [[[s2 o2] snd_] r2] eqn:Tk.
+      apply tick_client_spec in Tk. destruct Tk as [F2 _]. intros [= <- <- <-].
+      assert (Fall : frame s s2) by (eapply frame_trans; [eapply frame_trans|]; eauto).
+      apply Same_frame in Fall. destruct Fall as (A & B & C). repeat split; auto.
+    + intros [= <- <- <-]. apply Same_frame. eapply frame_trans; eauto.
+  - destruct (tick_client e sa cl now) as [[[s2 o2] snd_] r2] eqn:Tk.
+    apply tick_client_spec in Tk. destruct Tk as [F2 _]. intros [= <- <- <-].
+    apply Same_frame. eapply frame_trans; eauto.
+Qed.
+
+Lemma sweep_temp_same e s now cid s' o p : sweep_temp e s now cid = (s', o, p) -> Same s s'.
+Proof.
+  unfold sweep_temp. destruct (pfind cid (s_temp s)) as [cl|]. 2:{ intros [= <- <- <-]. apply Same_refl. }
+  destruct (_ || _). { intros [= <- <- <-]. repeat split. }
+  destruct (tick_client e s cl now) as [[[s2 o2] snd_] r2] eqn:Tk.
+  apply tick_client_spec in Tk. destruct Tk as [F2 _]. intros [= <- <- <-]. apply Same_frame; auto.
+Qed.
+
+Lemma sweep_list_same (f : srv -> Z -> srv * list sout * list pending) :
+  (forall s cid s' o p, f s cid = (s', o, p) -> Same s s') ->
+  forall ids s s' o p, sweep_list f s ids = (s', o, p) -> Same s s'.
+Proof.
+  intros Hf. induction ids as [|cid r IH]; simpl; intros s s' o p.
+  - intros [= <- <- <-]. apply Same_refl.
+  - destruct (f s cid) as [[s1 o1] p1] eqn:F1. destruct (sweep_list f s1 r) as [[s2 o2] p2] eqn:F2.
+    intros [= <- <- <-]. eapply Same_trans; [eapply Hf; eauto|eapply IH; eauto].
+Qed.
+
+Lemma shutdown_list_same h e ids : forall s s' o, shutdown_list h e s ids = (s', o) -> Same s s'.
+Proof.
+  induction ids as [|cid r IH]; cbn [shutdown_list]; intros s s' o.
+  - intros [= <- <-]. apply Same_refl.
+  - destruct (pfind cid (s_conns s)) as [cl|]. 2:{ apply IH. }
+    destruct (call_handler h e s (HDisconnect cid)) as [s1 o1] eqn:C.
+    apply call_handler_spec in C. destruct C as [F1 _].
+    match goal with |- context [shutdown_list h e ?x r] => set (sb := x) end.
+    destruct (shutdown_list h e sb r) as [s2 o2] eqn:R. intros [= <- <-].
+    eapply Same_trans; [|eapply IH; eauto]. apply Same_frame in F1. destruct F1 as (A & B & C).
+    repeat split; auto.
+Qed.
+
+Lemma srv_sx_same h e s i s' o : srv_sx h e s i = (s', o) -> Same s s'.
+Proof.
+  unfold srv_sx.
+  destruct (sweep_list _ s _) as [[s3 o3] p3] eqn:S3.
+  destruct (sweep_list _ s3 _) as [[s4 o4] p4] eqn:S4.
+  assert (A3 : Same s s3).
+  { eapply sweep_list_same; [|exact S3]. intros ? ? ? ? ? H0; cbv beta in H0; eapply sweep_conn_same; eauto. }
+  assert (A4 : Same s3 s4).
+  { eapply sweep_list_same; [|exact S4]. intros ? ? ? ? ? H0; cbv beta in H0; eapply sweep_temp_same; eauto. }
+  destruct (i_stop i).
+  - unfold srv_shutdown. destruct (shutdown_list _ _ _ _) as [s5 o5] eqn:L.
+    destruct (call_handler h e s5 HShutdown) as [s6 o6] eqn:C. intros [= <- <-].
+    apply shutdown_list_same in L. apply call_handler_spec in C. destruct C as [F _]. apply Same_frame in F.
+    pose proof (Same_trans _ _ _ (Same_trans _ _ _ (Same_trans _ _ _ A3 A4) L) F) as (X & Y & Z).
+    repeat split; auto.
+  - intros [= <- <-]. eapply Same_trans; eauto.
+Qed.
+
+(* the loop never stops serving, except when get_token is starved of an acceptable value *)
+Theorem srv_step_survives h e s i s' o :
+  srv_step h e s i = (s', o) -> s_dead s = false -> s_dead s' = true -> In (SDied 1) o.
+Proof.
+  unfold srv_step. destruct (negb (s_active s) || s_dead s). { intros [= <- <-]. congruence. }
+  destruct (srv_du h e s i) as [s2 o2] eqn:DU. pose proof (srv_du_keeps _ _ _ _ _ _ DU) as (_ & _ & K).
+  destruct (s_dead s2) eqn:D2.
+  - intros [= <- <-] A B. destruct K; [congruence|auto].
+  - destruct (srv_sx h e s2 i) as [s6 o6] eqn:SX. intros [= <- <-] A B.
+    destruct K as [K|K]; [|apply in_app_iff; auto].
+    apply srv_sx_same in SX. destruct SX as (_ & _ & D6). congruence.
+Qed.
+
+(* SDied is only ever emitted with cause 1, by a starved get_token *)
+Lemma get_token_some used rand : (exists r, In r rand /\ mask_token r <> 0 /\ ~ In (mask_token r) used) ->
+  get_token used rand <> None.
+Proof.
+  induction rand as [|x rest IH]; simpl; intros (r & I & N & U); [tauto|].
+  destruct ((mask_token x =? 0) || zmem (mask_token x) used) eqn:E; [|discriminate].
+  destruct I as [<-|I]; [|apply IH; eauto].
+  exfalso. apply orb_true_iff in E. destruct E as [E|E]; [lia|].
+  unfold zmem in E. apply existsb_exists in E. destruct E as (y & Iy & Ey). apply U. assert (mask_token x = y) by lia. congruence.
+Qed.
+
+(* ---------- block-listed addresses: discarded before any processing ---------- *)
+Definition blocked (bl : list Z) (it : witem) : bool := zmem (fst (w_addr it)) bl.
+
+Lemma disp_all_blocked h e now q : forall s,
+  disp_all h e s now q = disp_all h e s now (filter (fun it => negb (blocked (s_block s) it)) q).
+Proof.
+  induction q as [|it rest IH]; intros s; [reflexivity|].
+  cbn [filter]. destruct (blocked (s_block s) it) eqn:B; cbn [negb].
+  - cbn [disp_all]. destruct (s_dead s) eqn:D.
+    + clear IH. induction rest as [|x r IHr]; cbn [filter disp_all]; [rewrite ?D; auto|].
+      destruct (negb _); cbn [disp_all]; rewrite ?D; auto.
+    + unfold gate. unfold blocked in B. rewrite B. rewrite <- IH. destruct (disp_all h e s now rest); auto.
+  - cbn [disp_all]. destruct (s_dead s); auto.
+    destruct (match gate (s_block s) it with Some _ => _ | None => _ end) as [s1 o1] eqn:G.
+    assert (Bk : s_block s1 = s_block s).
+    { destruct (gate (s_block s) it) as [[[a d] xs]|].
+      - apply disp_item_keeps in G. apply G.
+      - injection G as <- <-. auto. }
+    rewrite IH, Bk. auto.
+Qed.
